@@ -17,13 +17,20 @@ inductive ConstraintSt where
   | malformed | ok
   deriving Repr, DecidableEq
 
+/-- outcome of evaluating the conjunction of all constraints on the parsed input (`solver.check`) -/
+inductive Verdict where
+  | sat | unsat
+  | error     -- the evaluation raises: a constraint that parses but cannot be evaluated (ill-typed
+              -- predicate arguments, which predicates only check when they are evaluated)
+  deriving Repr, DecidableEq
+
 /-- the input after `get_input_string`'s classification -/
 inductive InputSt where
   | none                 -- no input file / --input-string
   | several              -- more than one candidate input file
-  | given (inGrammar : Bool) (satisfiesAll : Bool)
+  | given (inGrammar : Bool) (verdict : Verdict)
       -- exactly one input: the text (or the valid JSON tree it encodes) is / is not in the
-      -- grammar's language, and (if it is) satisfies / violates the conjunction of all constraints
+      -- grammar's language, and (if it is) the outcome of evaluating all constraints on it
   deriving Repr, DecidableEq
 
 structure Files where
@@ -42,7 +49,10 @@ def hasMalformed : List ConstraintSt → Bool
 def inputExit : InputSt → Nat
   | .none => Generated.Cli.usageError
   | .several => Generated.Cli.usageError
-  | .given inG sat => if inG && sat then 0 else 1
+  | .given false _ => 1
+  | .given true .sat => 0
+  | .given true .unsat => 1
+  | .given true .error => Generated.Cli.dataFormatError
 
 /-- exit status of `isla check` -/
 def checkExit (f : Files) : Nat :=
